@@ -12,9 +12,11 @@ from pymbolic.mapper import (
     CachedCollector as C05CachedCollector,
     CachedCombineMapper as C05CachedCombineMapper,
     CachedIdentityMapper as C05CachedIdentityMapper,
+    CachedWalkMapper as C05CachedWalkMapper,
     Collector as C05Collector,
     CombineMapper as C05CombineMapper,
     IdentityMapper as C05IdentityMapper,
+    WalkMapper as C05WalkMapper,
 )
 
 from harness.c05_mappers import suffix as c05_suffix
@@ -243,7 +245,140 @@ class PlainOvCount(_OvCountHandlers, C05CombineMapper):
     pass
 
 
+# ---- round 7: handlers return None / values that are false in a truth test; own key ----
+# (a memoizing traversal: every handler returns None; combine mappers whose every handler
+# returns None, 0, False, ().  The table must keep such results like any other.)
+class OptWalkKey(C05CachedWalkMapper):
+    def get_cache_key(self, expr):
+        return (type(expr), expr)
+
+
+class PlainWalk(C05WalkMapper):
+    pass
+
+
+class OptNilNone(C05CachedCombineMapper):
+    def combine(self, values):
+        for _ in values:
+            pass
+        return None
+
+    def map_variable(self, expr):
+        return None
+
+    def map_constant(self, expr):
+        return None
+
+    def get_cache_key(self, expr):
+        return (type(expr), expr)
+
+
+class PlainNilNone(C05CombineMapper):
+    def combine(self, values):
+        for _ in values:
+            pass
+        return None
+
+    def map_variable(self, expr):
+        return None
+
+    def map_constant(self, expr):
+        return None
+
+
+class OptNilZero(C05CachedCombineMapper):
+    def combine(self, values):
+        for _ in values:
+            pass
+        return 0
+
+    def map_variable(self, expr):
+        return 0
+
+    def map_constant(self, expr):
+        return 0
+
+    def get_cache_key(self, expr):
+        return (type(expr), expr)
+
+
+class PlainNilZero(C05CombineMapper):
+    def combine(self, values):
+        for _ in values:
+            pass
+        return 0
+
+    def map_variable(self, expr):
+        return 0
+
+    def map_constant(self, expr):
+        return 0
+
+
+class OptNilFalse(C05CachedCombineMapper):
+    def combine(self, values):
+        for _ in values:
+            pass
+        return False
+
+    def map_variable(self, expr):
+        return False
+
+    def map_constant(self, expr):
+        return False
+
+    def get_cache_key(self, expr):
+        return (type(expr), expr)
+
+
+class PlainNilFalse(C05CombineMapper):
+    def combine(self, values):
+        for _ in values:
+            pass
+        return False
+
+    def map_variable(self, expr):
+        return False
+
+    def map_constant(self, expr):
+        return False
+
+
+class OptNilEmpty(C05CachedCombineMapper):
+    def combine(self, values):
+        for _ in values:
+            pass
+        return ()
+
+    def map_variable(self, expr):
+        return ()
+
+    def map_constant(self, expr):
+        return ()
+
+    def get_cache_key(self, expr):
+        return (type(expr), expr)
+
+
+class PlainNilEmpty(C05CombineMapper):
+    def combine(self, values):
+        for _ in values:
+            pass
+        return ()
+
+    def map_variable(self, expr):
+        return ()
+
+    def map_constant(self, expr):
+        return ()
+
+
 COUNTERPART = {
+    "OptWalkKey": "PlainWalk",
+    "OptNilNone": "PlainNilNone",
+    "OptNilZero": "PlainNilZero",
+    "OptNilFalse": "PlainNilFalse",
+    "OptNilEmpty": "PlainNilEmpty",
     "OptOvIdent": "PlainOvIdent",
     "OptOvCollector": "PlainOvCollector",
     "OptOvCount": "PlainOvCount",
